@@ -152,8 +152,9 @@ CONST_NEIGHBOURS = {'SECONDS_PER_MINUTE': ['SECONDS_PER_HOUR'], 'MINUTES_PER_HOU
                     'CUMUL_DAYS_IN_MONTHS_NORMAL_YEAR': ['CUMUL_DAYS_IN_MONTHS_LEAP_YEAR'], 'CUMUL_DAYS_IN_MONTHS_LEAP_YEAR': ['CUMUL_DAYS_IN_MONTHS_NORMAL_YEAR'],
                     'DAYS_IN_MONTHS_NORMAL_YEAR': ['DAY_IN_MONTHS_LEAP_YEAR_FROM_MARCH'], 'UNIX_OFFSET_SECS': ['SECONDS_PER_NORMAL_YEAR'], 'OFFSET_YEAR': ['DAYS_PER_NORMAL_YEAR']}
 BYTES = ["b'+'", "b'-'", "b'J'", "b'M'", "b','", "b'/'", "b'.'", "b':'", "b'<'", "b'>'", "b'\\n'", "b'0'", "b'9'", "b'a'", "b'z'", "b'A'", "b'Z'"]
-SUBS4 = [(r' as i32\b', ' as i16 as i32'), (r' as u32\b', ' as u16 as u32'), (r' as i128\b', ' as i64 as i128'), (r' as u8\b', ' as i8 as u8'),
-         (r' as i64\b', ' as i8 as i64'), (r' as usize\b', ' as u16 as usize'), (r' as u64\b', ' as u32 as u64'), (r' as i8\b', ' as u8 as i8'),
+# (the narrowing casts of sets 2 and 3 are not repeated with other widths: a first run showed 20 of 20 survivors of `as i8 as` / `as u16 as` / `as i64 as i128` variants to be identity casts)
+SUBS4 = [
+
          (r'\b(i8|i16|i32|i64|u8|u16|u32|u64|usize)::try_from\(([^()]*(?:\([^()]*\))?[^()]*)\)\?', r'((\2) as \1)'),
          (r'\.try_into\(\)\?', '.try_into().unwrap_or_default()'),
          (r'\[(\w+)\]', r'[\1 + 1]'), (r'\[(\w+)\]', r'[\1 - 1]'), (r'\[(\w+) \+ 1\]', r'[\1]'), (r'\[(\w+) - 1\]', r'[\1]'),
